@@ -157,7 +157,13 @@ def one(beh, res, clause, kinds):
                 elif op == "covframe":
                     a.cov.frame = act["x"]
                 elif op == "pickle":
-                    objs.append(pickle.loads(pickle.dumps(a)))
+                    b = pickle.loads(pickle.dumps(a))
+                    objs.append(b)
+                    # metadata preserved: form and frame of the unpickled object compare equal to the source's (the library
+                    # compares them by identity, e.g. "orbit.form != TLE", "cov.frame == old_frame")
+                    same_meta = b.form == a.form and b.frame == a.frame and (a.cov is None or b.cov.frame == a.cov.frame)
+                    clause("pickling preserves form and frame (they compare equal to the source's)", bool(same_meta), "sv/pickle-metadata",
+                           f"{act}: unpickled form/frame compare unequal to the source's ({b.form} {b.frame})", data)
                 elif op == "asorbit":
                     objs.append(a.as_orbit("Kepler"))
                 elif op == "assv":
